@@ -3,7 +3,7 @@
 // VF-RULE: E2 under ASan+UBSan+libstdc++ assertions: for each entry point (one 'ep:' space each) every letter sequence of length 0..L over that entry point's alphabet of grammar-significant letters (characters, or words for description languages) times every listed option combination is fed to the real code; plus one 'rep:' space per entry point with every word w of 1..3 letters repeated to 64 and to 4096 bytes times every option combination. A case is non-trivial when its input is non-empty. Outcome of every case must be 'returned' or 'raised bpp::Exception'; foreign exceptions are caught by type, sanitizer reports/signals by the supervisor, non-termination by a per-case CPU-time watchdog.
 // VF-BOUND: byte strings up to 4 KiB are replaced by: all strings of length <= 5 (quick) / <= 7 (thorough) over 2..13 letters per entry point (the length is lowered per entry point so that a space stays under 150k (quick) / 2.5M (thorough) cases — the length actually used is in each space name), plus the repetition families w^k (|w|<=3 letters) of 64 and 4096 bytes. Inputs needing more distinct significant letters than that and lying outside the repetition families are not reached.
 // VF-LEVEL: bounded-exhaustive differential crash check: every listed (entry point, option combination, string) case is executed on the real code under sanitizers; no sampling, no mutation-based search
-// VF-ASSUME: ASan/UBSan/_GLIBCXX_ASSERTIONS detect the memory and arithmetic errors the property names (iterator arithmetic before begin() of a std::string is only seen when the corrupted result is read back);; a case that uses more than 0.3 s (short inputs) / 4 s (4 KiB inputs) of user CPU time does not terminate;; the character classification of the C locale
+// VF-ASSUME: ASan/UBSan/_GLIBCXX_ASSERTIONS detect the memory and arithmetic errors the property names (iterator arithmetic before begin() of a std::string is only seen when the corrupted result is read back);; a case that uses more than 0.05 s (short inputs; typical cases take 1-100 microseconds) / 0.5 s (4 KiB inputs; typical 0.1-20 ms) of CPU time does not terminate;; the character classification of the C locale
 // VF-TECHNIQUE: exhaustive small-scope input enumeration on the real code under sanitizers with forked, supervised workers
 // VF-BUDGET_QUICK: 240
 // VF-BUDGET_THOROUGH: 2400
@@ -90,7 +90,8 @@ static void driveTokenizer(StringTokenizer& st, vf::Case& c, const char* pfx, bo
   while (true) {
     site(3, "::hasMoreToken"); if (!st.hasMoreToken()) break;
     site(4, "::nextToken"); use(st.nextToken());
-    if (baseUnparse) { site(2, "::unparseRemainingTokens"); use(st.unparseRemainingTokens()); }
+    // (unparse after each of the first 8 and the last 3 tokens: keeps the drive linear on 4 KiB inputs)
+    if (baseUnparse && (guard < 8 || st.numberOfRemainingTokens() < 3)) { site(2, "::unparseRemainingTokens"); use(st.unparseRemainingTokens()); }
     if (++guard > n + 2) { c.fail(string("tokenizer|") + pfx + "|cursor-does-not-advance", "nextToken() returned more tokens than numberOfRemainingTokens() announced"); break; }
   }
   site(5, "::removeEmptyTokens"); st.removeEmptyTokens();
@@ -204,7 +205,7 @@ static vector<EP> buildEPs() {
       StringTokenizer st(s, "", o / 2, o % 2);
       driveTokenizer(st, c, "StringTokenizer", true);
     }, false);
-    add("StringTokenizer.default-delimiters", {"a", " ", "\t", "\n", "\f", "\r"}, {"default arguments"}, [](const string& s, int, vf::Case& c) {
+    add("StringTokenizer.default-delimiters", {"a", " ", "\t", "\n"}, {"default arguments"}, [](const string& s, int, vf::Case& c) {
       S(c, "StringTokenizer::StringTokenizer");
       StringTokenizer st(s);
       driveTokenizer(st, c, "StringTokenizer", true);
@@ -262,14 +263,21 @@ static vector<EP> buildEPs() {
 
   // ---- AttributesTools -----------------------------------------------------------------------------------------
   // the letter "|" separates the elements of the argument vector (lines of an option file)
-  add("AttributesTools.getAttributesMap", {"a", "=", "\\", "#", "/", "*", " ", "|"}, {"delimiter=\"=\"", "delimiter=\"==\"", "delimiter=\":\" (+ \\n inside elements)"}, [](const string& s, int o, vf::Case& c) {
-    vector<string> lines = splitOn(s, '|');
-    if (o == 2) for (auto& l : lines) for (auto& ch : l) if (ch == ' ') ch = '\n';
-    const char* dl[] = {"=", "==", ":"};
-    S(c, "AttributesTools::getAttributesMap"); use(AttributesTools::getAttributesMap(lines, dl[o]));
-    map<string, string> am; am["a"] = "0";
-    S(c, "AttributesTools::getAttributesMap(argv,am,delimiter)"); AttributesTools::getAttributesMap(lines, am, dl[o]); use(am);
-  }, false);
+  {
+    auto body = [](const string& s, int o, vf::Case& c) {
+      vector<string> lines = splitOn(s, '|');
+      if (o == 2) for (auto& l : lines) for (auto& ch : l) if (ch == ' ') ch = '\n';
+      const char* dl[] = {"=", "==", ":"};
+      S(c, "AttributesTools::getAttributesMap"); use(AttributesTools::getAttributesMap(lines, dl[o]));
+      map<string, string> am; am["a"] = "0";
+      S(c, "AttributesTools::getAttributesMap(argv,am,delimiter)"); AttributesTools::getAttributesMap(lines, am, dl[o]); use(am);
+    };
+    vector<string> od = {"delimiter=\"=\"", "delimiter=\"==\"", "delimiter=\":\" (+ \\n inside elements)"};
+    // comments, delimiters, blanks, several elements
+    add("AttributesTools.getAttributesMap", {"a", "=", "#", "/", "*", " ", "|"}, od, body, false);
+    // continuation character (own space with a smaller bound: a trailing continuation fails on the unchanged tree for every such input)
+    add("AttributesTools.getAttributesMap.continuation", {"a", "=", "\\", "|", "#"}, od, body, false);
+  }
   // variable resolution: the input is a list of entries "key=value" separated by ";"; words keep references well-formed or not
   {
     auto body = [](const string& s, int o, vf::Case& c) {
@@ -335,11 +343,18 @@ static vector<EP> buildEPs() {
       S(c, "ApplicationTools::getVectorParameter<int>(sep=' ')");
       try { use(ApplicationTools::getVectorParameter<int>("p", p.m, ' ', p.def, p.suffix, p.opt, 1)); } catch (bpp::Exception&) {}
       S(c, "ApplicationTools::getVectorOfVectorsParameter<int>"); use(ApplicationTools::getVectorOfVectorsParameter<int>("p", p.m, ',', p.def, p.suffix, p.opt, 1));
-      S(c, "ApplicationTools::getVectorParameter<int>(sep,range)"); use(ApplicationTools::getVectorParameter<int>("p", p.m, ',', '-', p.def, p.suffix, p.opt, true));
-      S(c, "ApplicationTools::getVectorParameter<double>(sep,range)"); use(ApplicationTools::getVectorParameter<double>("p", p.m, ',', '-', p.def, p.suffix, p.opt, true));
       S(c, "ApplicationTools::getMatrixParameter<double>"); { RowMatrix<double> m = ApplicationTools::getMatrixParameter<double>("p", p.m, ',', p.def, p.suffix, p.opt, true); use(m.getNumberOfRows()); use(m.getNumberOfColumns()); }
     }, true);
   }
+
+  // range-expanding vector readers (own space: a token that starts with the range operator fails on the unchanged tree)
+  add("ApplicationTools.range-vector-readers", {"1", "9", ",", "-", "(", ")"}, {"value in params[p]", "parameter absent, input is the default value"}, [](const string& s, int o, vf::Case& c) {
+    map<string, string> m; if (o == 0) m["p"] = s;
+    string def = o ? s : "";
+    S(c, "ApplicationTools::getVectorParameter<int>(sep,range)"); use(ApplicationTools::getVectorParameter<int>("p", m, ',', '-', def, "", true, true));
+    S(c, "ApplicationTools::getVectorParameter<double>(sep,range)"); use(ApplicationTools::getVectorParameter<double>("p", m, ',', '-', def, "", true, true));
+    S(c, "ApplicationTools::getVectorParameter<unsigned>(sep,range=':')"); use(ApplicationTools::getVectorParameter<unsigned>("p", m, ',', ':', def, "", true, true));
+  }, false);
 
   // ---- FileTools -----------------------------------------------------------------------------------------------
   add("FileTools.paths", {"a", ".", "/", "\\"}, {"dirSep='/'", "dirSep='\\\\'", "dirSep='.'"}, [](const string& s, int o, vf::Case& c) {
@@ -530,6 +545,8 @@ int main(int argc, char** argv) {
     {"NestedStringTokenizer.empty-delimiters", {3, 4}},
     {"NestedStringTokenizer.unparse-through-base", {3, 4}},
     {"AttributesTools.resolveVariables.words", {6, 7}},
+    {"AttributesTools.getAttributesMap.continuation", {4, 5}},
+    {"ApplicationTools.range-vector-readers", {4, 5}},
     {"NumCalcApplicationTools.getVector.words", {4, 5}},
     {"readDiscreteDistribution.Simple", {3, 4}},
     {"readDiscreteDistribution.compound", {4, 5}},
@@ -556,18 +573,19 @@ int main(int argc, char** argv) {
     R.space(name, nS * O, [ep, A, O, sep](uint64_t idx, vf::Case& c) {
       int opt = (int)(idx % O); vector<int> d = seqOf(idx / O, A);
       string in; for (size_t i = 0; i < d.size(); ++i) { if (i) in += sep; in += ep.alpha[(size_t)d[i]]; }
-      execCase(ep, in, opt, c, 0.3);
+      execCase(ep, in, opt, c, 0.05);
       if (idx % 7919 == 11) c.sample(ep.name + " [" + ep.opts[(size_t)opt] + "] " + show(in) + (c.failed ? " -> violation" : " -> ok"));
     }, 6.0, 256);
     // ---- repetition families: every word of 1..3 letters repeated to >= 64 and >= 4096 bytes ----
     int wl = (A > 12) ? 2 : 3;
+    if (ep.name.find(".empty-delimiters") != string::npos) wl = 1;   // solid mode: every case fails on the unchanged tree
     uint64_t nW = countUpTo(A, wl) - 1;
     string rname = "rep:" + ep.name + ":letters=" + vf::str(A) + ":w<=" + vf::str(wl) + ":bytes=64,4096:opts=" + vf::str(O);
     R.space(rname, nW * 2 * O, [ep, A, O, sep](uint64_t idx, vf::Case& c) {
       int opt = (int)(idx % O); uint64_t r = idx / O; size_t target = (r % 2) ? 4096 : 64; vector<int> d = seqOf(r / 2 + 1, A);
       string w; for (size_t i = 0; i < d.size(); ++i) { if (i) w += sep; w += ep.alpha[(size_t)d[i]]; }
       string in; while (in.size() < target) { if (!in.empty()) in += sep; in += w; }
-      execCase(ep, in, opt, c, 4.0);
+      execCase(ep, in, opt, c, 0.5);
       if (idx % 1009 == 5) c.sample(ep.name + " [" + ep.opts[(size_t)opt] + "] (" + show(w) + ")^k, " + vf::str(in.size()) + " bytes" + (c.failed ? " -> violation" : " -> ok"));
     }, 30.0, 16);
     if (!R.replay) {
@@ -577,7 +595,7 @@ int main(int argc, char** argv) {
   }
   R.note(capsNote);
   R.note(vf::str(nEP) + " entry-point groups covering ~90 public functions; each group's alphabet and option list is in the harness (buildEPs)");
-  R.note("outcome classes: '<entry point> returned' and '<entry point> raised-bpp::Exception' are the two permitted outcomes; everything else is a violation with signature kind|site|class");
+  R.note("outcome classes: '<entry point> returned' and '<entry point> raised-bpp::Exception' are the two permitted outcomes; everything else is a violation with signature kind|site|class; crash|<site>|exit97 is the CPU-time watchdog (the case did not terminate within 0.05 s / 0.5 s of CPU time)");
   R.note("AttributesTools::removeComments is private; it is exercised through getAttributesMap (letters # / * and, in option 3, new-lines inside elements)");
   R.note("entry points that read files or the terminal (getAttributesMapFromFile, parseOptions with param=, fileExists on user paths) are not driven; getAFilePath is called with mustExist=false");
   return R.finish();
